@@ -207,7 +207,10 @@ fi
 # ---- 4b. configurations over a systematic space: every (field, boundary value) cell ----------
 if [ "$TIER" = "thorough" ]; then NCB=76; else NCB=20; fi
 CELLS_RESULT="clean"; CELLS_N=0
-for prof in unopt rel optchk optchktrace; do
+# (the unoptimised build is ~70x slower on pixel-heavy bases; overflow checks are equally on in
+#  optchk, so the quick tier walks the cells with rel / optchk / optchk+Trace only)
+if [ "$TIER" = "thorough" ]; then CELLPROFS="unopt rel optchk optchktrace"; else CELLPROFS="rel optchk optchktrace"; fi
+for prof in $CELLPROFS; do
   rm -f "$D/cells-$prof".*.txt
   pexe="$(exe ${prof%trace})"; penv=""; [ "$prof" = optchktrace ] && penv="ASESIM_LOG=trace"
   seq 0 $((NCB-1)) | xargs -P "$WORKERS" -I{} sh -c "env $penv \"$pexe\" c16-digest --seed $SEED --cells-base {} > \"$D/cells-$prof.{}.txt\" 2>/dev/null"
@@ -215,6 +218,7 @@ for prof in unopt rel optchk optchktrace; do
   rm -f "$D/cells-$prof".[0-9]*.txt
 done
 CELLS_N=$(wc -l < "$D/cells-optchk.txt")
+[ "$TIER" = "thorough" ] || cp "$D/cells-optchk.txt" "$D/cells-unopt.txt"
 if ! cmp -s "$D/cells-unopt.txt" "$D/cells-rel.txt" || ! cmp -s "$D/cells-rel.txt" "$D/cells-optchk.txt" || ! cmp -s "$D/cells-optchk.txt" "$D/cells-optchktrace.txt"; then
   CELLS_RESULT="violated"
   first="$(paste -d'|' "$D/cells-unopt.txt" "$D/cells-rel.txt" "$D/cells-optchk.txt" "$D/cells-optchktrace.txt" | awk -F'|' '$1!=$2 || $2!=$3 || $3!=$4 {print; exit}')"
@@ -315,7 +319,7 @@ except Exception:
 d=json.loads(diff)
 e["coverage"]["extra"]={
   "1_type_send_sync":{"result":typ,"how":"cargo check of /verif/typecheck (assert_send_sync::<AsepriteFile and all borrowed views>)"},
-  "4b_configurations_cell_walk":{"result":cells,"cells_compared":int(cellsn),"bases":int(ncb),"profiles":["unopt","rel","optchk","optchk with log level Trace"],"what":"every (integer field, boundary value) cell of each base file; one digest line per cell per profile"},
+  "4b_configurations_cell_walk":{"result":cells,"cells_compared":int(cellsn),"bases":int(ncb),"profiles":(["unopt"] if tier=="thorough" else [])+["rel","optchk","optchk with log level Trace"],"what":"every (integer field, boundary value) cell of each base file; one digest line per cell per profile"},
   "3c_native_stress":{"result":stress,"runs":int(sruns),"threads":6,"iterations_per_thread":int(siters),"note":"free-running OS threads; sound oracle, OS-chosen interleavings (complement to the deterministic stages)"},
   "3b_miri":{"result":miri,"program_runs":int(mruns),"miri_seeds":int(mseeds),"cases_per_seed":int(mcases),"preemption_rates":rates.split(),
              "what":"2..3 free-running threads over &AsepriteFile on tiny sprites; Miri's seeded scheduler preempts inside accessors; data races / UB / result != sequential memo fail the run"},
